@@ -1,12 +1,15 @@
 #!/bin/bash
-# usage: tools/with_seed.sh <patch.diff> <PID> [tier]   — apply a seeded change to /repo, run one check, undo.
+# usage: tools/with_seed.sh <patch.diff> <PID> [tier]   — run one check against a seeded change WITHOUT touching /repo:
+# the change is applied in a scratch worktree of /repo's HEAD and the check reads rockit from there (VERIF_REPO).
 # Evidence of such runs goes to a scratch directory so that committed evidence always comes from the clean tree.
-patch=$1; pid=$2; tier=${3:-quick}
+patch=$(readlink -f "$1"); pid=$2; tier=${3:-quick}
 cd "$(dirname "$0")/.."
-git -C /repo apply "$patch" || { echo "patch does not apply"; exit 3; }
-VERIF_EVIDENCE_DIR=/var/tmp/verif-seed-evidence ./check $pid --tier $tier | tail -4
+wt=/tmp/wt_seedtest_$$
+git -C /repo worktree add -q --detach $wt HEAD || exit 3
+git -C $wt apply "$patch" || { echo "patch does not apply"; git -C /repo worktree remove --force $wt; exit 3; }
+VERIF_REPO=$wt VERIF_EVIDENCE_DIR=/var/tmp/verif-seed-evidence-$$ ./check $pid --tier $tier 2>&1 | grep -v "WARNING\|^$" | tail -4
 rc=${PIPESTATUS[0]}
-git -C /repo checkout -- .
-rm -rf /var/tmp/verif-seed-evidence
-git -C /repo status --short | grep -v '^??'
+git -C /repo worktree remove --force $wt
+rm -rf /var/tmp/verif-seed-evidence-$$
+python3 tools/extract.py > /dev/null   # regenerate the tables from /repo again
 exit $rc
